@@ -9,7 +9,7 @@ import z3
 from .sym import *  # noqa
 
 MODULES = {"re": "re", "string": "string", "math": "math", "copy": "copy", "sys": "sys", "nx": "nx", "pp": "pp",
-           "warnings": "warnings", "os": "os", "time": "time", "signal": "signal", "operator": "operator"}
+           "warnings": "warnings", "os": "os", "time": "time", "signal": "signal", "operator": "operator", "ruamel": "ruamel"}
 
 
 def module_attr(ex, mod, attr):
@@ -21,6 +21,8 @@ def module_attr(ex, mod, attr):
         return 2**63 - 1
     if mod.split(".")[0] == "nx" and attr in ("algorithms", "dag", "utils", "simple_paths"):
         return ModRef(mod + "." + attr)
+    if mod.split(".")[0] == "ruamel" and attr in ("yaml", "comments", "compat"):
+        return ModRef(mod + "." + attr)  # only ever reached through contract-supplied abstractions (ex.abstract["ruamel...."])
     if mod == "os" and attr == "path":
         return ModRef("os.path")
     if mod == "operator" and attr == "itemgetter":
